@@ -411,8 +411,15 @@ inductive TB where
   | junk (n : Nat)
 deriving Repr
 
+/-- a toy digest (structural, not collision-free: none of the laws needs that) -/
+def digest : TB → Str
+  | .raw s bs => 'r' :: List.replicate (s + bs.length) '.'
+  | .cut s bs => 'c' :: List.replicate (s + bs.length) '.'
+  | .packed c i => 'p' :: List.replicate c '.' ++ digest i
+  | .junk n => 'j' :: List.replicate n '.'
+
 def env : Env TB where
-  sha x := (toString (repr x)).toList
+  sha := digest
   ser := .raw
   parse
     | .raw s bs => .stream s bs .clean
